@@ -22,6 +22,18 @@ def main():
         for i, s in enumerate(sc["specs"]):
             s["prio"] = rng.choice([1, 2, 3, 5, 7, 11, 13, 17, 19, 23]) * (10 ** (i % 3))
         d, _ = G.build(sc, inst=("w", k), maxc=1)
+        if rng.random() < 0.5:
+            # a history: (maybe) one call under the build-time priorities, then a reconfiguration that changes the
+            # ranking, then the observed call: the order must be the one of the NEW compound priorities
+            if rng.random() < 0.7:
+                d()
+            newp = {}
+            for i in rng.sample(range(sc["n"]), rng.randint(1, min(3, sc["n"]))):
+                newp[i] = rng.choice([29, 31, 37, 41, 43]) * (10 ** rng.randint(0, 4))
+            d.config_from_dict({"nodes": {"n%d" % i: {"priority": p_} for i, p_ in newp.items()}})
+            for i, p_ in newp.items():
+                sc["specs"][i]["prio"] = p_
+            sc["reconfigured"] = sorted(newp)
         table = {x: d.graph_ids.compound_priority[x] for x in d.exec_nodes}
         G.COUNTS.clear()
         order = []
